@@ -17,6 +17,7 @@ ASSUMPTIONS = ["the element validators behave as the C10 rules establish - their
 def run(project, rep):
     rep.run(H.b_rules, project, rep)
     rep.run(H.b_r14_header_text_built_on_every_call, project, rep)
+    rep.run(H.b_r15_only_header_errors_out_of_parse, project, rep)
     from .. import rules_types as T
     rep.rule("B-R10", "the validators the header fields are declared with refuse what is outside their domain (T-R2, T-R3, T-R4)")
     rep.run(T.t_r2, project, rep)
